@@ -407,7 +407,8 @@ class TensorProtoTensor(_core.TensorBase):  # pylint: disable=too-many-ancestors
                 self._proto.raw_data, dtype=dtype.numpy().newbyteorder("<")
             ).reshape(shape)
         if dtype == _enums.DataType.STRING:
-            return np.array(self._proto.string_data).reshape(shape)
+            # dtype=object: a fixed-width bytes array would drop trailing NUL bytes
+            return np.array(self._proto.string_data, dtype=object).reshape(shape)
         if self._proto.int32_data:
             assert dtype in {
                 _enums.DataType.BFLOAT16,
